@@ -1281,3 +1281,68 @@ def invocations(draw, mod, sigs):
         if draw(st.integers(0, 2)) == 0:
             onerror = ['none']
     return {'sig': si, 'args': args, 'body': body, 'ret': ret, 'error': error, 'onerror': onerror}
+
+
+# ------------------------------------------------------------------ x86-64 SysV argument classification
+# (used only to recognise the call shape of a known libffi defect, see known_findings.json / C13)
+
+def _flat_fields(mod, t, base=0):
+    """[(offset, size, 'INT'|'SSE')] of the scalar leaves of type t laid out at `base`; -> (leaves, size, align)"""
+    if t[0] == 'f':
+        s = FLOATS[t[1]]
+        return [(base, s, 'SSE')], s, s
+    if t[0] in ('i', 'c'):
+        s = sizeof_scalar(t)
+        return [(base, s, 'INT')], s, s
+    if t[0] in ('q', 'p', 'fp'):
+        return [(base, 8, 'INT')], 8, 8
+    if t[0] == 'a':
+        leaves, isz, ial = _flat_fields(mod, t[2], 0)
+        out = []
+        for k in range(t[1]):
+            out += [(base + k * isz + o, s, c) for o, s, c in leaves]
+        return out, isz * t[1], ial
+    if t[0] == 's':
+        off, al, out = 0, 1, []
+        for ft in mod['structs'][t[1]]:
+            _l, fs, fa = _flat_fields(mod, ft, 0)
+            off = (off + fa - 1) // fa * fa
+            out += [(base + off + o, s, c) for o, s, c in _l]
+            off += fs
+            al = max(al, fa)
+        size = (off + al - 1) // al * al
+        return out, size, al
+    raise ValueError(t)
+
+
+def sysv_arg_classes(mod, t):
+    """classes of the eightbytes of a by-value argument, or 'MEMORY'"""
+    leaves, size, _al = _flat_fields(mod, t)
+    if size > 16:
+        return 'MEMORY'
+    n8 = (size + 7) // 8
+    cls = []
+    for k in range(n8):
+        kinds = set(c for o, s, c in leaves if o < 8 * k + 8 and o + s > 8 * k)
+        cls.append('INT' if 'INT' in kinds else 'SSE')
+    return cls
+
+
+def libffi_last_gpr_mixed_struct(mod, argtypes):
+    """True iff some by-value struct argument classified [INTEGER, SSE] (in this order) is passed in
+    registers taking the 6th and last integer register while at least one SSE register is already in
+    use: the call shape for which libffi 3.4.4's x86-64 ffi_call puts the struct's SSE half into the
+    wrong register (also reproducible with ctypes)."""
+    g = x = 0
+    for t in argtypes:
+        cls = sysv_arg_classes(mod, t)
+        if cls == 'MEMORY':
+            continue
+        ng, ns = cls.count('INT'), cls.count('SSE')
+        if g + ng > 6 or x + ns > 8:
+            continue
+        if t[0] == 's' and cls == ['INT', 'SSE'] and g + ng == 6 and x >= 1:
+            return True
+        g += ng
+        x += ns
+    return False
